@@ -3,6 +3,7 @@ import Y0.Model.Graph
 import Y0.Model.Expr
 import Y0.Model.Cg
 import Y0.Model.IdStar
+import Y0.Model.IdcStar
 import Y0.Driver.Graph
 
 namespace Y0.Driver
@@ -61,6 +62,17 @@ def handleCf (op : String) (args : List Sexp) : Option Sexp := do
         | .list [rev, rot, drev] => do
             pure (exceptToSexp Codec.exprToSexp
               (idStar (orderWorlds (← boolOf? rev) (← asNat? rot)) (orderDistrict (← boolOf? drev)) G e))
+        | _ => none
+      pure (tagged "ok" rs)
+  | "idc_star_all", [g, outs, conds, .list strategies] => do
+      let G ← parseGraph g
+      let o ← eventOf? outs
+      let c ← eventOf? conds
+      let rs ← strategies.mapM fun s => match s with
+        | .list [rev, rot, drev] => do
+            let d ← boolOf? drev
+            pure (exceptToSexp Codec.exprToSexp
+              (idcStar (orderWorlds (← boolOf? rev) (← asNat? rot)) (orderDistrict d) (orderDistrict d) G o c))
         | _ => none
       pure (tagged "ok" rs)
   | "pw_graph", [g, ev] =>
